@@ -65,6 +65,23 @@ CHECKS.update({
 
 PLANNED = {}
 
+MATRIX = (" The core selection is also run under every configuration of the matrix worker kind (lxc / remote / serial / mixed) x pool_scope (every "
+          "enumerated subset containing 'own') x slot binding (container, serial, remote slots). Deviation bounds are iterated level by level; the evidence "
+          "reports the bound completed per scenario (small scenarios: all choice sequences).")
+ADDENDA = {
+    "C01": MATRIX, "C02": MATRIX, "C03": MATRIX + " The reuse scope of the oracle follows pool_scope alone (worker / swarm / run).", "C04": MATRIX, "C08": MATRIX,
+    "C07": " The same oracle is applied to the graph expanded on demand by a dry-run traversal (no test represented twice per worker).",
+    "C09": " Lazy expansion is also explored under all schedules within k for nine lazy scenarios incl. selections mixing primary test sets.",
+    "C10": " Replays cover every subset of the setup chain still present: a passed setup test whose state is in no pool must be executed again.",
+    "C11": " The alphabet includes primary test sets joined to other names by each operator (single dot, double dot, comma).",
+    "C12": " One call addressing 2-3 objects with independent presence and policy per object is enumerated as well (every row combination).",
+    "C15": " Vms selected with several variants (or a non-default one) are included: path and removals are required per variant, with a variant-aware resolver.",
+    "C16": " Lookups (get / in) are also interleaved with the insertions (all queries before every insertion; one lookup at one position).",
+    "C17": " VM-size strings are rendered by a port of qemu's size_to_str over a systematic range of byte counts (every unit, both sides of every unit switch).",
+    "C19": " The peering nic role is a dimension of its own (default role and a second role mapped to another interface).",
+    "C20": " Steps include collect/create/clean; user-given <op>_mode / <op>_mode_<vm> parameters must be the ones the step's test applies to each vm.",
+}
+
 
 def main():
     props = [json.loads(l) for l in open(os.path.join(VERIF, "properties.jsonl"))]
@@ -73,6 +90,7 @@ def main():
         pid = p["id"]
         if pid in CHECKS:
             engine, technique, text, note, ref = CHECKS[pid]
+            text = text + ADDENDA.get(pid, "")
             checks.append({
                 "property_id": pid,
                 "quick_cmd": f"{PY} -m vt.run {pid} --tier quick",
